@@ -22,6 +22,34 @@ JOBS = int(os.environ.get('PAR_JOBS', '14'))
 SCR = tempfile.mkdtemp(prefix='par_eval_')
 
 
+import re
+SUMM = re.compile(r'^(C\d\d) tier=\w+ obligations=\d+ discharged=\d+ known=\d+ violations=(\d+) broken=(\d+)')
+
+
+def check_all(repo, tag=''):
+    """one process for all properties (check.py --all shares the model and the rule results) -> {prop: result}"""
+    ev = os.path.join(SCR, 'ev', os.path.basename(repo) + tag)
+    r = subprocess.run(['python3', os.path.join(HERE, 'check.py'), '--all'], cwd=HERE,
+                       stdout=subprocess.PIPE, stderr=subprocess.STDOUT, universal_newlines=True,
+                       env=dict(os.environ, VERIF_EVIDENCE_DIR=ev, VERIF_REPO=repo, VERIF_TIMEOUT='3000'))
+    out = {}
+    cur = []
+    for l in r.stdout.splitlines():
+        mm = SUMM.match(l)
+        if mm:
+            viol = [x for x in cur if x.startswith('VIOLATION') or x.startswith('ANALYSIS-BROKEN')]
+            out[mm.group(1)] = {'rc': 2 if int(mm.group(3)) else (1 if int(mm.group(2)) else 0), 'lines': viol,
+                                'detail': [x.strip() for x in cur if x.startswith('  ')],
+                                'known': sorted(x.split(' at ')[0] for x in cur if x.startswith('KNOWN-FINDING'))}
+            cur = []
+        else:
+            cur.append(l)
+    for p in props:
+        if p not in out:      # the run died before reaching this property
+            out[p] = {'rc': 2, 'lines': ['ANALYSIS-BROKEN no verdict: ' + ' | '.join(cur[-3:])], 'detail': ['ANALYSIS-BROKEN ' + ' | '.join(cur[-3:])], 'known': []}
+    return out
+
+
 def check(p, repo, tier='quick', tag=''):
     ev = os.path.join(SCR, 'ev', os.path.basename(repo) + tag, p)
     r = subprocess.run(['python3', os.path.join(HERE, 'check.py'), p, '--tier', tier], cwd=HERE,
@@ -44,8 +72,7 @@ def ident(l):
 
 
 base_repo = copy_repo('base')
-with ThreadPoolExecutor(JOBS) as ex:
-    base = dict(zip(props, ex.map(lambda p: check(p, base_repo), props)))
+base = check_all(base_repo)
 for p in props:
     if base[p]['rc'] != 0:
         print('BASE NOT CLEAN', p, base[p]['lines'][:3])
@@ -63,12 +90,7 @@ def do_patch(d):
         if a.returncode != 0:
             return sid, {'error': 'patch does not apply to current /repo HEAD'}
         target = meta.get('property')
-        got = {}
-        for p in props:
-            if TARGET_ONLY and p != target:
-                got[p] = base[p]
-            else:
-                got[p] = check(p, repo)
+        got = check_all(repo)
         out = {}
         for p in props:
             base_ids = set(ident(l) for l in base[p]['detail'])
@@ -121,5 +143,5 @@ if not TARGET_ONLY and not only:
 if not TARGET_ONLY:
     json.dump(results, open(res_path, 'w'), indent=1, sort_keys=True)
 n = [r for r in results.values() if 'error' not in r]
-print('%s: %d patches, %d reported, %d by own property' % (suite, len(n), sum(1 for r in n if r['caught']),
+print('%s: %d patches, %d reported, %d by own property' % (suite, len(n), sum(1 for r in n if r.get('caught', not r.get('silent', True))),
                                                             sum(1 for r in n if r.get('caught_by_target'))))
